@@ -68,6 +68,15 @@ def build_body(body: Dict[str, Any], req_wire: Dict[str, Any], is_sse: bool) -> 
         msgs.append({"jsonrpc": "2.0", "id": rid, "result": payload})
     else:
         msgs = []
+    if kind in ("nonutf8-latin1", "nonutf8-overlong") and ("id" not in req_wire or (isinstance(rid, str) and not rid.isascii())):
+        kind = "nonutf8"  # only for requests whose id survives the wrong encoding: the payload text carries the bad bytes
+    if kind in ("nonutf8-latin1", "nonutf8-overlong"):
+        # a well-formed response whose bytes are not UTF-8 (a server writing Latin-1, an overlong encoding)
+        good = json.dumps({"jsonrpc": "2.0", "id": rid, "result": {"t": "caf\u00e9"}}, ensure_ascii=False)
+        data = good.encode("latin-1") if kind == "nonutf8-latin1" else good.encode("utf-8").replace("\u00e9".encode("utf-8"), b"\xc0\xaf")
+        if is_sse:
+            return b"event: message\ndata: " + data + b"\n\n", [], False
+        return data, [], False
     raw = {"empty": b"", "truncated": b'{"jsonrpc":"2.0","id":1,"resu', "nonjson": b"<html>oops</html>", "nonutf8": b"\xff\xfe\x00{",
            "scalar": b"5", "emptyobj": b"{}"}
     if kind in raw:
@@ -346,7 +355,7 @@ def _label(beh: Dict[str, Any], m: Dict[str, Any]) -> str:
             quirks.append("multi-line-data")
         if enc.get("event_after_data"):
             quirks.append("event-after-data")
-        if b.get("kind") in ("empty", "truncated", "nonjson", "scalar", "emptyobj", "nonutf8"):
+        if b.get("kind") in ("empty", "truncated", "nonjson", "scalar", "emptyobj", "nonutf8", "nonutf8-latin1", "nonutf8-overlong"):
             quirks.append("no-message-in-body")
         return "sse:" + ("+".join(quirks) if quirks else "plain")
     if b.get("kind") == "batch" or b.get("kind") == "notifs+response":
@@ -359,7 +368,7 @@ def _label(beh: Dict[str, Any], m: Dict[str, Any]) -> str:
 # --------------------------------------------------------------------------------------- generators
 
 STATUSES = [200, 202, 204, 301, 302, 307, 400, 401, 404, 429, 500, 503]
-BODY_KINDS = ["result", "error", "batch", "notifs+response", "wrong_id", "empty", "truncated", "nonjson", "nonutf8", "scalar", "emptyobj"]
+BODY_KINDS = ["result", "error", "batch", "notifs+response", "wrong_id", "empty", "truncated", "nonjson", "nonutf8", "nonutf8-latin1", "nonutf8-overlong", "scalar", "emptyobj"]
 SSE_ENCODINGS: List[Dict[str, Any]] = [
     {}, {"event": None}, {"space": False}, {"eol": "\r\n"}, {"comment": True}, {"id_field": "7", "retry": 1000}, {"split_data": True}, {"event_after_data": True},
     {"event": None, "space": False, "eol": "\r\n"}, {"noise": True}, {"unterminated": True}, {"ensure_ascii": False},
